@@ -249,6 +249,13 @@ func checkC05(c *km.Ctx) {
 		}
 	}
 
+	// the cookie that is raised is the cookie that authenticated the request: with several cookies of that name in
+	// one request, checkAuth and the upgrade must pick the same one
+	if ca := c.MustFunc("R-C05-3", "cmd/keymasterd", "(*RuntimeState).checkAuth"); ca != nil {
+		a, b := authCookieSelection(c, ca), authCookieSelection(c, upd)
+		r.Add("R-C05-3", km.FuncName(upd), "the raised cookie is the authenticating cookie", c.P.Pos(upd.Pos()), "checkAuth and updateAuthCookieAuthlevel select the session cookie the same way (both the last, or both the first, of that name)", sprintf("checkAuth=%s upgrade=%s", a, b), a == b && (a == "last" || a == "first"))
+	}
+
 	checkOneTime(c, s, upd, isAuthUser)
 	// the stored TOTP counter, the cleared bootstrap OTP and the disabled flag of a token are consumed only if
 	// they reach the stored profile: gob drops unexported fields without a word
@@ -1070,4 +1077,78 @@ func totpStepIsFloor(v ssa.Value, depth int) (bool, string) {
 		}
 	}
 	return false, km.ValStr(v)
+}
+
+// authCookieSelection: how fn (or a helper new to the tree that it calls) picks the session cookie out of the
+// request: "first" (Request.Cookie, or a loop over Request.Cookies() that stops at the first match), "last" (a
+// loop over Request.Cookies() that runs to the end, each match replacing the previous), "none", or a description
+// when both occur.
+func authCookieSelection(c *km.Ctx, fn *ssa.Function) string {
+	classes := map[string]bool{}
+	for _, f := range callsWithNewHelpersFuncs(c, fn, 2) {
+		for _, ci := range km.CallsIn(f) {
+			switch km.CalleeFull(ci.Common()) {
+			case "(*net/http.Request).Cookie":
+				if n, ok := km.ConstString(ci.Common().Args[1]); ok && n == "auth_cookie" {
+					classes["first"] = true
+				}
+			case "(*net/http.Request).Cookies":
+				cl, isCall := ci.(*ssa.Call)
+				if !isCall {
+					continue
+				}
+				// the range loop over this slice
+				for _, b := range f.Blocks {
+					if b.Comment != "rangeindex.loop" || len(b.Succs) != 2 {
+						continue
+					}
+					body, done := b.Succs[0], b.Succs[1]
+					inLoop := km.ReachableBlocks(body, map[*ssa.BasicBlock]bool{b: true, done: true})
+					overCookies, namesAuth := false, false
+					for blk := range inLoop {
+						for _, in := range blk.Instrs {
+							if ia, ok := in.(*ssa.IndexAddr); ok && km.Unwrap(ia.X) == ssa.Value(cl) {
+								overCookies = true
+							}
+							if bo, ok := in.(*ssa.BinOp); ok && (bo.Op == token.EQL || bo.Op == token.NEQ) {
+								for _, side := range []ssa.Value{bo.X, bo.Y} {
+									if n, isC := km.ConstString(side); isC && n == "auth_cookie" {
+										namesAuth = true
+									}
+								}
+							}
+						}
+					}
+					if !overCookies || !namesAuth {
+						continue
+					}
+					early := false
+					for _, p := range done.Preds {
+						if p != b {
+							early = true
+						}
+					}
+					for blk := range inLoop {
+						if _, isRet := blk.Instrs[len(blk.Instrs)-1].(*ssa.Return); isRet {
+							early = true
+						}
+					}
+					if early {
+						classes["first"] = true
+					} else {
+						classes["last"] = true
+					}
+				}
+			}
+		}
+	}
+	switch {
+	case len(classes) == 0:
+		return "none"
+	case len(classes) == 1:
+		for k := range classes {
+			return k
+		}
+	}
+	return "first and last"
 }
